@@ -92,7 +92,15 @@ func sectionFollow(c *Ctx, pkgPath string) func(*types.Func) bool {
 		}
 		d := c.Prog.Decl(f)
 		has := false
-		if d != nil {
+		if sig, ok := f.Type().(*types.Signature); ok {
+			// a helper that is handed getWaitCh / broadcast runs inside the caller's section
+			for i := 0; i < sig.Params().Len(); i++ {
+				if isWaitChGetter(sig.Params().At(i).Type()) {
+					has = true
+				}
+			}
+		}
+		if d != nil && !has {
 			ast.Inspect(d.Decl.Body, func(n ast.Node) bool {
 				if call, ok := n.(*ast.CallExpr); ok {
 					if name, _ := core.IsHoldLockCall(d.Pkg.TypesInfo, call); name != "" {
@@ -179,8 +187,8 @@ func (s *r2State) waiterPath(e core.Entry, p *core.Path) {
 		idx int
 	}
 	wvars := map[*types.Var]wInfo{} // wait-channel local -> section that assigned it
-	lastGet := -1
-	var lastGetLock *types.Var
+	wt := newWTrack()
+	getSec := map[int]*r2Section{}
 	windowStart := 0
 	// locals assigned per section: local -> last assignment index, by section
 	type sample struct {
@@ -247,7 +255,8 @@ func (s *r2State) waiterPath(e core.Entry, p *core.Path) {
 				delete(open, ev.Lock)
 			}
 		case core.KGetWaitCh:
-			lastGet, lastGetLock = i, ev.Lock
+			wt.onGet(i, ev)
+			getSec[i] = open[ev.Lock]
 			s.getWaitCh[c.Prog.Pos(ev.Pos)] = true
 		case core.KAssign:
 			if ev.FieldInit {
@@ -259,12 +268,12 @@ func (s *r2State) waiterPath(e core.Entry, p *core.Path) {
 			}
 			lastAssign[v] = i
 			// W = getWaitCh()
-			if lastGet >= 0 && ev.Rhs != nil && lastGet < i {
-				if call, ok := unparen(ev.Rhs).(*ast.CallExpr); ok && p.Events[lastGet].Call == call {
-					if sc := open[lastGetLock]; sc != nil {
-						wvars[v] = wInfo{sec: sc, idx: i}
-					}
+			if gi, ok := wt.onAssign(v, ev); ok {
+				if sc := getSec[gi]; sc != nil {
+					wvars[v] = wInfo{sec: sc, idx: i}
 				}
+			} else {
+				delete(wvars, v)
 			}
 			// a sample: assigned inside a section to a local declared outside the section literal,
 			// or assigned from the result of an inlined function that contains a section
@@ -395,4 +404,85 @@ func litUses(lit *ast.FuncLit, v *types.Var, info *types.Info) bool {
 		return !found
 	})
 	return found
+}
+
+// isWaitChGetter: func() <-chan struct{}
+func isWaitChGetter(t types.Type) bool {
+	sig, ok := t.Underlying().(*types.Signature)
+	if !ok || sig.Params().Len() != 0 || sig.Results().Len() != 1 {
+		return false
+	}
+	ch, ok := sig.Results().At(0).Type().Underlying().(*types.Chan)
+	if !ok {
+		return false
+	}
+	st, ok := ch.Elem().Underlying().(*types.Struct)
+	return ok && st.NumFields() == 0
+}
+
+// retResult is what an inlined call's return event yields at result index idx: the expression of the
+// return statement, or the named result variable of a bare return.
+func retResult(ret *core.Event, idx int) (ast.Expr, *types.Var) {
+	if idx < 0 {
+		idx = 0
+	}
+	if idx < len(ret.Results) {
+		e := ret.Results[idx]
+		return e, identVar(e, ret.Frame)
+	}
+	ft := ret.Frame.FuncType()
+	if ft == nil || ft.Results == nil {
+		return nil, nil
+	}
+	k := 0
+	for _, f := range ft.Results.List {
+		for _, n := range f.Names {
+			if k == idx {
+				v, _ := ret.Frame.Info().Defs[n].(*types.Var)
+				return n, v
+			}
+			k++
+		}
+	}
+	return nil, nil
+}
+
+// wTrack follows wait channels (results of getWaitCh()) through local assignments and through the
+// results of inlined helpers, so that "wait = getWaitCh()" may live in a helper that returns it.
+type wTrack struct {
+	gets   map[*ast.CallExpr]int // getWaitCh() call -> index of its latest KGetWaitCh event
+	origin map[*types.Var]int    // local -> KGetWaitCh event index its value came from
+}
+
+func newWTrack() *wTrack {
+	return &wTrack{gets: map[*ast.CallExpr]int{}, origin: map[*types.Var]int{}}
+}
+
+func (t *wTrack) onGet(i int, ev *core.Event) { t.gets[ev.Call] = i }
+
+// onAssign: the assignment event gives local v a wait channel; returns the KGetWaitCh event index.
+func (t *wTrack) onAssign(v *types.Var, ev *core.Event) (int, bool) {
+	e := ev.Rhs
+	var src *types.Var
+	if ev.RetEv != nil {
+		e, src = retResult(ev.RetEv, ev.RhsIdx)
+	} else if e != nil && ev.RhsIdx < 0 {
+		src = identVar(e, ev.Frame)
+	}
+	if e != nil {
+		if call, ok := unparen(e).(*ast.CallExpr); ok {
+			if gi, ok := t.gets[call]; ok {
+				t.origin[v] = gi
+				return gi, true
+			}
+		}
+	}
+	if src != nil && src != v {
+		if gi, ok := t.origin[src]; ok {
+			t.origin[v] = gi
+			return gi, true
+		}
+	}
+	delete(t.origin, v)
+	return 0, false
 }
